@@ -135,6 +135,8 @@ impl CoreRule for ReverseRule {
 
 pub fn add_custom(md: &mut MarkdownIt, c: char) {
     match c {
+        // a third-party use of the generic pair rule: one more length for strikethrough's marker (seed C07-10)
+        'z' => { markdown_it::generics::inline::emph_pair::add_with::<'~', 1, true>(md, || Node::new(markdown_it::plugins::cmark::inline::emphasis::Em { marker: '~' })); }
         'V' => { md.add_rule::<ReverseRule>().before::<markdown_it::plugins::sourcepos::SyntaxPosRule>(); }
         '1' => { md.block.add_rule::<CustomBlockA>(); }
         '2' => { md.block.add_rule::<CustomBlockB>(); }
@@ -250,6 +252,8 @@ pub fn cmd_hist(a: &[&str]) -> String {
                 let r = crate::guarded(|| dump::parse_report(&md, &src, flags));
                 out.push(format!("P[{}]", r));
             }
+            // the limit is a public field: it may be reassigned between parses (seed C02-9)
+            "N" => { md.max_nesting = rest.parse().unwrap(); }
             "D" => {
                 let r = crate::guarded(|| { let s = format!("{:?}", md); format!("ok {}", s.len() > 0) });
                 out.push(format!("D[{}]", r.split(' ').take(2).collect::<Vec<_>>().join(" ")));
